@@ -85,9 +85,11 @@ theorem chainAt_updRoot_proj {β : Type} (p : Node → β) (h : Node → Node) (
       simp [hp]
     | (i + 1) :: rest => simp [Forest.updRoot, chainAt]
 
-theorem preorder_updRoot (h : Node → Node) (t : Forest) (idx : Nat) (pre : Addr) :
+theorem preorder_updRoot (h : Node → Node) (hs : ∀ n, (h n).site = n.site) (t : Forest) (idx : Nat) (pre : Addr) :
     preorder (t.updRoot h) idx pre = preorder t idx pre := by
-  cases t <;> rfl
+  cases t with
+  | nil => rfl
+  | role n kids next => simp only [Forest.updRoot, preorder, hs]
 
 /-! ### one row -/
 
@@ -301,7 +303,10 @@ theorem consolidated_of_user (p : Path) (k x : String) (h : get (uChain p) k = s
 theorem preorder_exec (w : EnvWrite) (s : EnvSt) (idx : Nat) (pre : Addr) :
     preorder (w.exec s).t idx pre = preorder s.t idx pre := by
   unfold EnvWrite.exec
-  cases w.tgt <;> simp [preorder_updRoot]
+  cases w.tgt with
+  | root => exact preorder_updRoot (Node.updOwn (Level.upd w.kind (w.fn s))) (fun _ => rfl) s.t idx pre
+  | env => rfl
+  | role => rfl
 
 theorem preorder_foldl (ev : EnvM.Ev) (src : EnvM.St) (idx : Nat) (pre : Addr) :
     ∀ (rows : List EnvWrite) (s : EnvSt), preorder (rows.foldl (EnvWrite.step ev src) s).t idx pre = preorder s.t idx pre := by
